@@ -161,6 +161,7 @@ pub fn coq_error_payload(e: &CompilationErrorPayload) -> Option<String> {
         CompilationErrorPayload::RecursionLimitReached(n) => format!("(ERecursionLimitReached {})", out::n(*n as u64)),
         CompilationErrorPayload::BadImport(s) => format!("(EBadImport {})", coq_str(s)),
         CompilationErrorPayload::AmbigousImport(s) => format!("(EAmbigousImport {})", coq_str(s)),
+        CompilationErrorPayload::SuperLimitReached => "ESuperLimitReached".into(),
         _ => return None,
     })
 }
